@@ -398,7 +398,7 @@ def gen_datetime(rng):
 
 # While _Duration.from_timedelta goes through floats (defect F7, property C15) the codec checks keep to the
 # spans on which the float arithmetic is exact: |us| < 2**53 and negative spans of whole seconds only.
-TD_SAFE = True
+TD_SAFE = False
 
 
 def gen_timedelta(rng):
